@@ -214,6 +214,35 @@ def main():
         print(json.dumps(run_once(sys.argv[2])))
         return
     payload = json.loads(sys.stdin.read() or "{}")
+    m = re.search(r"(rl_blox/[\w/]+\.py):\d+: class attribute `(\w+)\.(\w+) =", str((payload.get("verifier_output") or {}).get("goal") or ""))
+    if m and "no_shared_mutable_state" in payload.get("obligation", ""):
+        # native witness for the shared-state clause: the class-level object IS what two fresh instances' histories go
+        # into (identity), shown on the real class without constructing anything
+        import importlib
+
+        mod = importlib.import_module(m.group(1)[:-3].replace("/", "."))
+        cls, attr = getattr(mod, m.group(2)), m.group(3)
+        obj = cls.__dict__.get(attr)
+        shared = obj is not None and isinstance(obj, (list, dict, set, bytearray)) or type(obj).__name__ in ("ndarray", "deque", "OrderedDict", "defaultdict")
+        import ast
+        import inspect
+        import textwrap
+
+        try:
+            init_ast = ast.parse(textwrap.dedent(inspect.getsource(cls.__dict__["__init__"]))).body[0]
+            rebinds = any(isinstance(st, (ast.Assign, ast.AnnAssign)) and any(isinstance(t, ast.Attribute) and t.attr == attr for t in (st.targets if isinstance(st, ast.Assign) else [st.target]))
+                          for st in init_ast.body)
+        except Exception:  # noqa: BLE001  (no own __init__: nothing rebinds)
+            rebinds = False
+        a, b = object.__new__(cls), object.__new__(cls)
+        shared = shared and getattr(a, attr) is getattr(b, attr)
+        if shared and not rebinds:
+            print(json.dumps(dict(reproduced=True, witness=dict(cls=f"{mod.__name__}.{cls.__name__}", attribute=attr, class_level_object=repr(type(obj).__name__),
+                                                                  what="one mutable object in the class __dict__: every instance that does not rebind it appends to the same object; "
+                                                                       "a second run in the same process sees the first run's entries"))))
+            return
+        print(json.dumps(dict(reproduced=False, note=f"{m.group(2)}.{attr} is not a mutable class-level object on this tree")))
+        return
     routines, cands = pick_routines(payload)
     if not routines:
         print(json.dumps(dict(reproduced=False, note="flagged function is not reachable from a routine this driver can run cheaply "
